@@ -681,6 +681,10 @@ theorem decode_src_any (t : Table) (x : MemBuf) (fuel : Nat) (hT : TableOk t) (h
   · have h8' : 8 ≤ x.b.length := by omega
     by_cases h0 : byteAt x.b 0 = 0
     · obtain ⟨hsrc, hmap⟩ := SrcTec.decode_tecmp_src (tblSt t) x.pre x.b x.post fuel toPacket hpre h8' h0 (by omega) hf
+        (fun _ => by
+          have := C03.beAt_lt x.b 32 2
+          have hbl : x.b.length ≤ (x.pre ++ x.b ++ x.post).length := by simp only [List.length_append]; omega
+          omega)
       rw [decodeLL_tecmp t x.b h8' h0]
       exact ⟨_, hsrc, hmap⟩
     · obtain ⟨outs, h1, h2⟩ := decode_src t x.pre x.b x.post fuel (SrcTec.tecmpExt fuel) hT hR hpre h8' h0 hmem hf
